@@ -298,3 +298,89 @@ theorem denoteElementwiseFold_eq_fun (f : String) (exprsIn : List Expr) (exprOut
   | some es =>
     simp only [Option.map_some, Option.bind_some, List.nil_append]
     exact okOpt_fillOutput _ _
+
+/-! ### both sides together -/
+
+theorem concatFreeL_map_rootExpr : ∀ ins : List (List G), Expr.concatFreeL (ins.map rootExpr) = true
+  | [] => rfl
+  | e :: es => by
+    simp only [List.map_cons, Expr.concatFreeL, concatFree_rootExpr e, concatFreeL_map_rootExpr es, Bool.and_self]
+
+theorem map_rootExpr_dims (ins : List (List G)) :
+    (ins.map rootExpr).map (fun e => (rootDims e, shapeOf e)) = ins.map (fun e => (toDimL e, gShape e)) := by
+  rw [List.map_map]
+  apply List.map_congr_left
+  intro e _
+  simp only [Function.comp, rootDims_rootExpr, shapeOf_rootExpr]
+
+theorem ok_of_okOpt {α : Type} {x : Denote.E α} {a : α} (h : okOpt x = some a) : x = .ok a := by
+  cases x with
+  | error e => simp [okOpt] at h
+  | ok b => simp only [okOpt, Option.some.injEq] at h; rw [h]
+
+/-- The denotation an elementwise call is compared with, from the cells of the functional form. -/
+theorem ewExpected_of_cells {f : String} {kind : EwKind} {ins : List (List G)} {go : List G} {cs : List Cell}
+    (hk : ewKindOf f = some kind)
+    (h : ewCellsG (ewCell f kind) (ins.map (fun e => (toDimL e, gShape e))) (toDimL go) (gShape go) = some cs) :
+    ewExpected f ins go = .ok ⟨gShape go, cs⟩ := by
+  unfold ewExpected
+  rw [hk]
+  cases kind with
+  | nary =>
+    simp only []
+    apply ok_of_okOpt
+    rw [denoteElementwiseFold_eq_fun f _ _ (concatFreeL_map_rootExpr ins) (concatFree_rootExpr go), map_rootExpr_dims,
+      rootDims_rootExpr, shapeOf_rootExpr]
+    have : ewCell f EwKind.nary = foldCells f := rfl
+    rw [this] at h
+    rw [h]; rfl
+  | fixed n =>
+    simp only []
+    apply ok_of_okOpt
+    rw [denoteElementwise_eq_fun f _ _ (concatFreeL_map_rootExpr ins) (concatFree_rootExpr go)]
+    unfold denoteElementwiseFun
+    simp only [concatFreeL_map_rootExpr ins, concatFree_rootExpr go, Bool.and_self, Bool.not_true, Bool.false_eq_true,
+      if_false]
+    rw [map_rootExpr_dims, rootDims_rootExpr, shapeOf_rootExpr, ewCells_eq_G]
+    have : ewCell f (EwKind.fixed n) = Cell.app f := rfl
+    rw [this] at h
+    rw [h]; rfl
+
+theorem symRun_multi {prog : List Instr} {shapes : List (List Nat)} {regs : List (Tensor Cell)} {r : Nat} {T : Tensor Cell}
+    (hev : evalProg symAlg prog (symInputs shapes) = .ok regs) (hr : regs[r]? = some T) :
+    symRun prog shapes [r] = .ok [T] := by
+  simp [symRun, hev, bind, Except.bind, selectRegs, hr, pure, Except.pure]
+
+/-- The register that `lowerElementwise`'s program computes from the symbolic inputs holds exactly the cells of the
+loop-notation denotation. -/
+theorem lower_ew_core {f : String} {ins : List (List G)} {go : List G} {s : St}
+    (hd : ewDomain ins go = true) (h : lowerElementwise f ins go = .ok s) :
+    ∃ T, ewExpected f ins go = .ok T ∧ T.shape = gShape go ∧
+      symRun s.prog (ins.map gShape) [s.reg] = .ok [T] := by
+  simp only [ewDomain, Bool.and_eq_true, List.all_eq_true] at hd
+  have hout := (noDup_iff _).mp hd.1
+  have hcons : ∀ e ∈ ins, ∀ a ∈ G.leavesL e, ∀ b ∈ G.leavesL go, a.name = b.name → a.len = b.len :=
+    fun e he => consistentLens_spec (hd.2 e he)
+  cases hk : ewKindOf f with
+  | none =>
+    unfold lowerElementwise Generic.ewInner at h
+    simp [hk, bind, Except.bind, throw, throwThe, MonadExceptOf.throw] at h
+  | some kind =>
+    obtain ⟨hall, regs, T, hev, hreg, hsh, hlen, hread⟩ := lowerElementwise_run hk hout hcons h
+    obtain ⟨cs, hcs, hcl, hpt⟩ := ewCellsG_lower (ewCell f kind) hout hcons (fun e he => (hall e he).2)
+    have hdat : T.data = cs := by
+      apply List.ext_getElem?
+      intro k
+      by_cases hk' : k < prod (gShape go)
+      · obtain ⟨val, hbi, hbo, hr, hc⟩ := hpt k hk'
+        have := hread val hbi hbo
+        rw [hr] at this
+        rw [this, hc]
+      · rw [List.getElem?_eq_none (by omega), List.getElem?_eq_none (by omega)]
+    refine ⟨⟨gShape go, cs⟩, ewExpected_of_cells hk hcs, rfl, ?_⟩
+    have hT : T = ⟨gShape go, cs⟩ := by
+      cases T
+      simp only at hsh hdat
+      rw [hsh, hdat]
+    rw [← hT]
+    exact symRun_multi hev hreg
